@@ -54,6 +54,12 @@ class C09(ObjCheck):
     def run_program(self, ctx, prog):
         if isinstance(prog, dict) and prog.get("fault"):
             return self.run_fault(ctx, prog)
+        if isinstance(prog, dict) and "ops" in prog:
+            # explicit cell of the prefix sweep: the backend is part of the program
+            if prog["backend"] == "db":
+                return self.run_on_db(ctx, prog["ops"])
+            ctx.label("backend_file")
+            return ObjCheck.run_program(self, ctx, prog["ops"])
         # one history in three runs on the SQLite backend (chosen by the program's own content, so that a replay takes the same one)
         import json
         if len(json.dumps(prog)) % 3 == 0:
@@ -87,7 +93,41 @@ class C09(ObjCheck):
                              "opname": "remove"})
         return ctx.kf.hits.get("KF-C09-03", 0) > before
 
+    def prefix_cells(self):
+        """'no prefix of a rejected template is applied', enumerated: class x every attribute C_SetAttributeValue may change on it (both boolean
+        values) x what follows it in the template and gets the call rejected x token / session object x file / SQLite"""
+        from vlib.objects import LIGHT_CLASSES, class_kind
+        from vlib.objworld import World
+        cells = []
+        for backend in ("file", "db"):
+            for cls in LIGHT_CLASSES:
+                for name in World.SETTABLE.get(class_kind(cls), []):
+                    for idx in (0, 1):
+                        for badkind in ("unknown_type", "readonly_local", "wrong_size_bool", "other_class_attr", "wrong_size_ulong"):
+                            for token in (True, False):
+                                cells.append({"backend": backend, "ops": [["open", 0, 1], ["login", 0, "USER"], ["create", 0, cls, 1, token, False, [], None],
+                                                                          ["set", 0, 0, [[name, idx]], [1, badkind]], ["find", 0, [], [64]]]})
+        return cells
+
     def extra(self, ctx, tier, shard, nshards):
+        cells = self.prefix_cells()
+        ctx.extra["prefix_cells_total"] = len(cells) if shard == 0 else 0
+        for i, prog in enumerate(cells):
+            if i % nshards != shard:
+                continue
+            try:
+                self.run_program(ctx, prog)
+                ctx.label("prefix_cells")
+            except Violation as v:
+                v.program = prog
+                return v
+            except WorkerDied as d:
+                v = self.on_worker_death(ctx, prog, d)
+                if v is not None:
+                    return v
+        return self.fault_sweep(ctx, tier, shard, nshards)
+
+    def fault_sweep(self, ctx, tier, shard, nshards):
         """deterministic sweep of the fault leg over every call kind and (a stated subset of / all) its file-system operations"""
         cells, total = faultleg.sweep_cells(ctx, tier, shard, nshards, ctx.shared["fstage"], ctx.shared["tpl"])
         ctx.extra["fault_sweep_cells_total"] = total if shard == 0 else 0
